@@ -113,6 +113,27 @@ pub fn err_v(e: &hpo::HpoError) -> V {
 }
 
 /// table of the runtime's `f32::ln` on every quotient n/N with 1 <= n <= N <= max_n
+/// the ln values for counts 1..=max_n over the given totals (and over each other, as ln_table)
+pub fn ln_table_totals(max_n: usize, totals: &[usize]) -> V {
+    let mut seen = std::collections::BTreeMap::new();
+    for total in 1..=max_n {
+        for cur in 1..=total {
+            let q = (cur as u16 as f32) / (total as u16 as f32);
+            seen.insert(f32_bits(q), f32_bits(q.ln()));
+        }
+    }
+    for total in totals {
+        if *total == 0 || *total > 65535 {
+            continue;
+        }
+        for cur in 1..=max_n.min(*total) {
+            let q = (cur as u16 as f32) / (*total as u16 as f32);
+            seen.insert(f32_bits(q), f32_bits(q.ln()));
+        }
+    }
+    V::L(seen.into_iter().map(|(a, r)| V::T(vec![n(a), n(r)])).collect())
+}
+
 pub fn ln_table(max_n: usize) -> V {
     let mut seen = std::collections::BTreeMap::new();
     for total in 1..=max_n {
